@@ -344,7 +344,8 @@ def plain_config(case, run):
         "data_config": {
             "provider": "LabelsReader", "train_labels_path": slp, "val_labels_path": slp, "test_file_path": None,
             "user_instances_only": True, "data_pipeline_fw": case["fw"],
-            "np_chunks_path": run["np_chunks_path"], "litdata_chunks_path": None, "use_existing_chunks": False,
+            "np_chunks_path": run["np_chunks_path"], "litdata_chunks_path": None,
+            "use_existing_chunks": bool(case.get("reuse")),
             "delete_chunks_after_training": case["delete"], "chunk_size": 100,
             "preprocessing": {"is_rgb": False, "max_width": None, "max_height": None, "scale": 1.0,
                               "crop_hw": [160, 160], "min_crop_size": None},
@@ -383,6 +384,7 @@ def structured_config(case, run):
     slp = run["labels"]
     dc = get_data_config(train_labels_path=slp, val_labels_path=slp, data_pipeline_fw=case["fw"],
                          np_chunks_path=run["np_chunks_path"], delete_chunks_after_training=case["delete"],
+                         use_existing_chunks=bool(case.get("reuse")),
                          crop_hw=(160, 160), scale=1.0, min_crop_size=None)
     mc = get_model_config(backbone_config={"unet": dict(UNET)}, head_configs={case["model"]: head_cfg(case["model"])})
     tc = get_trainer_config(batch_size=1, shuffle_train=False, num_workers=0, trainer_num_devices=1,
@@ -435,23 +437,39 @@ def abstract(obs, supplied, final):
 ORDER = ["initial_config", "training_config", "chunks_config", "best_ckpt", "last_ckpt", "train_chunks", "val_chunks"]
 
 
-def run_impl(case):
-    """Run the real trainer for `case`; returns the observation record (JSON-able)."""
+def run_history(case):
+    """A two-run history in one scratch directory: run 1 (`case["run1"]`: fresh, chunk framework, chunks
+    kept) and run 2 (`case`: use_existing_chunks=True, same np_chunks_path, new save_ckpt_path)."""
+    scratch = tempfile.mkdtemp(prefix="verif_c19_")
+    try:
+        rec1 = run_impl(case["run1"], scratch=scratch, ckpt_name="ckpt")
+        rec2 = run_impl(case, scratch=scratch, ckpt_name="ckpt2", carried=rec1.pop("_refs", None))
+        return rec1, rec2
+    finally:
+        (getattr(REC, "_rmtree", None) or shutil.rmtree)(scratch, ignore_errors=True)
+
+
+def run_impl(case, scratch=None, ckpt_name="ckpt", carried=None):
+    """Run the real trainer for `case`; returns the observation record (JSON-able).
+    `scratch` given: part of a history (the caller removes it); `carried`: the (supplied, used) configs of
+    the earlier run, against which files that run left behind (chunks config.yaml) are abstracted."""
     import torch
     import wandb
     from omegaconf import OmegaConf
 
     install_hooks()
-    scratch = tempfile.mkdtemp(prefix="verif_c19_")
+    own_scratch = scratch is None
+    if own_scratch:
+        scratch = tempfile.mkdtemp(prefix="verif_c19_")
     cwd0 = os.getcwd()
     saved_fds = None
-    rec = {"case": case}
+    rec = {"case": case, "ckpt_name": ckpt_name}
     try:
         runroot = os.path.realpath(os.path.join(scratch, "run"))
-        ckpt_dir = os.path.join(runroot, "out", "ckpt")
+        ckpt_dir = os.path.join(runroot, "out", ckpt_name)
         cwd = os.path.join(runroot, "cwd")
-        os.makedirs(cwd)
-        os.makedirs(os.path.join(runroot, "out"))
+        os.makedirs(cwd, exist_ok=True)
+        os.makedirs(os.path.join(runroot, "out"), exist_ok=True)
         sep = case["sep_chunks"]
         chunks_base = os.path.join(runroot, "out", "chunks") if sep else ckpt_dir
         run = {"scratch": scratch, "ckpt_dir": ckpt_dir, "np_chunks_path": chunks_base if sep else None}
@@ -536,8 +554,14 @@ def run_impl(case):
                             st[name] = nxt[name]
             filled.append(st)
 
+        def abst(c, obs):
+            # the chunks config.yaml of a re-used chunk dir was written by the earlier run
+            if carried is not None and c == "chunks_config":
+                return abstract(obs, carried[0], carried[1])
+            return abstract(obs, supplied, final)
+
         def fs_str(st):
-            return ",".join(f"{c}={abstract(st[c], supplied, final)}" for c in ORDER if c in st) or "-"
+            return ",".join(f"{c}={abst(c, st[c])}" for c in ORDER if c in st) or "-"
 
         toks = []
         for i, (kind, name) in enumerate(REC.events):
@@ -549,8 +573,9 @@ def run_impl(case):
             elif name.startswith("other:"):
                 toks.append(f"W:{name}")
             else:
-                toks.append(f"W:{name}:" + (abstract(st[name], supplied, final) if name in st else "absent"))
+                toks.append(f"W:{name}:" + (abst(name, st[name]) if name in st else "absent"))
         rec["fs"] = [fs_str(st) for st in filled]
+        rec["_refs"] = (supplied, final)
         rec["trace"] = toks
         rec["boundaries"] = [{"n": n, "inner": inner, "hits": hits, "trigger": trig}
                              for (n, inner, hits, trig) in REC.boundaries]
@@ -590,7 +615,8 @@ def run_impl(case):
         if saved_fds is not None:
             os.dup2(saved_fds[0], 1); os.dup2(saved_fds[1], 2)
         os.chdir(cwd0)
-        (getattr(REC, "_rmtree", None) or shutil.rmtree)(scratch, ignore_errors=True)
+        if own_scratch:
+            (getattr(REC, "_rmtree", None) or shutil.rmtree)(scratch, ignore_errors=True)
 
 
 def improved_rounds(logdir, case):
@@ -658,13 +684,11 @@ def leak_classes(fs_str):
     return out
 
 
-REL = {"initial_config": "out/ckpt/initial_config.yaml", "training_config": "out/ckpt/training_config.yaml",
-       "best_ckpt": "out/ckpt/best.ckpt", "last_ckpt": "out/ckpt/last.ckpt"}
-
-
-def hit_classes(hits, case):
-    rel = dict(REL)
-    rel["chunks_config"] = "out/chunks/config.yaml" if case["sep_chunks"] else "out/ckpt/config.yaml"
+def hit_classes(hits, rec):
+    case, ck = rec["case"], rec.get("ckpt_name", "ckpt")
+    rel = {"initial_config": f"out/{ck}/initial_config.yaml", "training_config": f"out/{ck}/training_config.yaml",
+           "best_ckpt": f"out/{ck}/best.ckpt", "last_ckpt": f"out/{ck}/last.ckpt"}
+    rel["chunks_config"] = "out/chunks/config.yaml" if case["sep_chunks"] else f"out/{ck}/config.yaml"
     inv = {v: k for k, v in rel.items()}
     return {inv.get(h, "other:" + h) for h in hits}
 
@@ -676,9 +700,8 @@ def matches_model(rec, m_trace, m_fs):
         return False, "trace"
     if rec["fs"] != m_fs:
         return False, "fs"
-    case = rec["case"]
     for b in rec["boundaries"]:
-        got = hit_classes(b["hits"], case)
+        got = hit_classes(b["hits"], rec)
         n = b["n"]
         if b["inner"]:
             # inside write n+1 (or between two): the file being rewritten may be truncated
@@ -710,20 +733,37 @@ def flush_pending(chk: Check, verdicts):
 
 
 def check_case(chk: Check, case, rec=None):
+    """One fresh run, or (case["reuse"]) a two-run history: run 1 is checked as a fresh run, run 2 against
+    `traceR` / `fsReuseAt` starting from what run 1 left.  Returns (rec, verdict) of the last run."""
+    if case.get("reuse") and rec is None:
+        rec1, rec2 = run_history(case)
+        _r, v1 = check_case(chk, case["run1"], rec=rec1)
+        chk.tag(f"run1_verdict={v1}")
+        return check_case(chk, case, rec=dict(rec2, rounds1=rec1["rounds"]))
     rec = rec or run_impl(case)
+    rec.pop("_refs", None)
     rounds = rec["rounds"]
-    out = run_driver("C19.lean", [flags_line("trace", "repaired", case, rounds), flags_line("fs", "repaired", case, rounds),
-                                  flags_line("trace", "asis", case, rounds), flags_line("fs", "asis", case, rounds)])
+    if case.get("reuse"):
+        def l2(op, ver):
+            if op == "tracer":
+                return flags_line(op, ver, case, rounds)
+            return flags_line(op, ver, case["run1"], rec["rounds1"]) + " " + flags_line("", "", case, rounds).strip()
+        lines = [l2("tracer", "repaired"), l2("fsr", "repaired"), l2("tracer", "asis"), l2("fsr", "asis")]
+    else:
+        lines = [flags_line("trace", "repaired", case, rounds), flags_line("fs", "repaired", case, rounds),
+                 flags_line("trace", "asis", case, rounds), flags_line("fs", "asis", case, rounds)]
+    out = run_driver("C19.lean", lines)
     if not all(o.startswith("ok") for o in out):
         raise RuntimeError(f"driver rejected case {case}: {out}")
     rep_t, asis_t = out[0].split()[1:], out[2].split()[1:]
     rep_fs, asis_fs = [s.strip() for s in out[1][3:].split("|")], [s.strip() for s in out[3][3:].split("|")]
     key = (case["model"], case["fw"], case["wandb"], case["ckpt"], case["structured"], case["delete"],
-           case["sep_chunks"], case["epochs"])
+           case["sep_chunks"], case["epochs"], bool(case.get("reuse")))
     chk.case(key, {"case": case, "impl_trace": rec["trace"], "crash_points_scanned": len(rec["boundaries"]),
                    "wall_s": rec["wall"]},
              tags=[f"model={case['model']}", f"fw={case['fw']}", f"wandb={case['wandb']}", f"ckpt={case['ckpt']}",
-                   f"structured={case['structured']}", f"delete={case['delete']}", f"epochs={case['epochs']}"])
+                   f"structured={case['structured']}", f"delete={case['delete']}", f"epochs={case['epochs']}",
+                   "mode=" + ("reuse_chunks(run 2)" if case.get("reuse") else "fresh")])
     chk.extra["crash_points_scanned"] = chk.extra.get("crash_points_scanned", 0) + len(rec["boundaries"])
     if rec["hook_errors"]:
         raise RuntimeError(f"recorder hook failed: {rec['hook_errors'][:3]}")
@@ -732,7 +772,7 @@ def check_case(chk: Check, case, rec=None):
     if ok_rep and not bad:
         return rec, "repaired"
     ok_asis, why_asis = matches_model(rec, asis_t, asis_fs)
-    slim = {k: rec[k] for k in ("case", "trace", "fs", "exception", "final", "rounds")}
+    slim = {k: rec[k] for k in ("case", "trace", "fs", "exception", "final", "rounds", "ckpt_name")}
     slim["leaking_boundaries"] = [b for b in rec["boundaries"] if b["hits"]][:6]
     if ok_asis:
         chk.tag("behaves_as_asIs_model")
@@ -761,6 +801,18 @@ def mk(model, fw, wandb, ckpt, structured, delete, sep=True, epochs=1, seed=1000
             "delete": bool(delete), "sep_chunks": bool(sep), "epochs": epochs, "seed": seed, "lr": lr}
 
 
+def mk_reuse(rng, model, wandb, ckpt, structured, delete, epochs=1):
+    """Two-run history: run 1 = fresh chunk-framework run that keeps its chunks (other flags random),
+    run 2 = `use_existing_chunks=True` on the same np_chunks_path with its own flags."""
+    run1 = mk(model, "torch_dataset_np_chunks", rng.random() < 0.5, rng.random() < 0.5, rng.random() < 0.5, 0,
+              sep=True, seed=rng.randrange(2**31))
+    c = mk(model, "torch_dataset_np_chunks", wandb, ckpt, structured, delete, sep=True, epochs=epochs,
+           seed=rng.randrange(2**31))
+    c["reuse"] = True
+    c["run1"] = run1
+    return c
+
+
 def main(chk: Check):
     chk.build_and_audit()
     import_repo()
@@ -773,6 +825,8 @@ def main(chk: Check):
     if chk.thorough:
         for m, fw, w, c, s, d in itertools.product(MODELS, FWS, [0, 1], [0, 1], [0, 1], [0, 1]):
             cases.append(mk(m, fw, w, c, s, d, sep=rng.random() < 0.7, seed=rng.randrange(2**31)))
+        for m, w, c, s, d in itertools.product(MODELS, [0, 1], [0, 1], [0, 1], [0, 1]):   # grid x reuse
+            cases.append(mk_reuse(rng, m, w, c, s, d))
         for _ in range(8):   # more than one validation epoch: best.ckpt only when the loss improved
             cases.append(mk(rng.choice(MODELS), rng.choice(FWS), rng.random() < 0.5, 1, rng.random() < 0.5,
                             rng.random() < 0.5, sep=rng.random() < 0.7, epochs=rng.choice([2, 3]),
@@ -791,6 +845,10 @@ def main(chk: Check):
                             rng.random() < 0.5, rng.random() < 0.5, sep=rng.random() < 0.7, seed=rng.randrange(2**31)))
         cases.append(mk(rng.choice(MODELS), rng.choice(FWS), rng.random() < 0.5, 1, 0, 1, epochs=rng.choice([2, 3]),
                         seed=rng.randrange(2**31), lr=rng.choice([1e-4, 0.05, 0.5])))
+        # two-run histories (use_existing_chunks): deletion requested after re-use, and a random one
+        cases.append(mk_reuse(rng, rng.choice(MODELS), rng.random() < 0.5, rng.random() < 0.5, rng.random() < 0.5, 1))
+        cases.append(mk_reuse(rng, rng.choice(MODELS), rng.random() < 0.5, rng.random() < 0.5, rng.random() < 0.5,
+                              rng.random() < 0.5))
     verdicts = {}
     for i, case in enumerate(cases):
         rec, verdict = check_case(chk, case)
